@@ -130,6 +130,12 @@ def g2(rep, w):
                 writes_thr = True
                 pl = op_place(s['r'].get('o', {}) or {}) if s['r'].get('rv') == 'use' else None
                 paths = horg.get(pl['l'], set()) if pl else set()
+                if s['r'].get('rv') == 'bin':
+                    # optimised builds store the product straight into the field (no overflow-check temporary)
+                    for o in (s['r']['a'], s['r']['b']):
+                        opl = op_place(o)
+                        if opl is not None:
+                            paths = paths | {q + tuple(e.get('n') for e in (opl.get('p') or []) if isinstance(e, dict) and 'n' in e) for q in horg.get(opl['l'], {(('local', opl['l']),)})}
                 for q in paths:
                     toks = [t for t in q[1:] if not t.startswith('@') and t != '*']
                     if q[0][0] == 'call':
